@@ -734,8 +734,9 @@ def run(run):
     saves = [x for c in find_calls(A, la, "save_to_jsonfile") for x in g.nodes_of(c)]
     for sn in saves:
         facts = {f.text() for f in F.local(la, None, sn)}
-        hc = [c for c in g.nodes if c.kind == "cond" and norm(c.ast) == "powhsm_attestation['message'] != powhsm_attestation['envelope']"]
-        ok = bool(hc) and all(g.dominates(c, sn) for c in hc)
+        # the save happens on the side of the check where message == envelope holds (a must-fact at the save, not merely the test's presence)
+        eqs = ("powhsm_attestation['message'] == powhsm_attestation['envelope']", "powhsm_attestation['envelope'] == powhsm_attestation['message']")
+        ok = any(t in facts for t in eqs)
         run.check("R1", ok, "health check message == envelope dominates the save", key="do_attestation|health-check", where=la.loc(),
                   message="the Ledger attestation is saved without the message/envelope equality check")
     ac = defs_of(A, la, "att_cert")
